@@ -171,6 +171,8 @@ def rule_R3(ctx, f, b):
         S = peel(c.args[0])
         v = c.args[1]
         pv = peel(v)
+        if isinstance(pv, tuple) and pv and pv[0] == "agg" and (pv[2].endswith("Cow::Borrowed") or pv[2].endswith("Cow::Owned")) and pv[3]:
+            pv = peel(pv[3][0])       # a set of Cow<str>: the same strings
         e = elem_of(pv)
         fm = [s_ for s_ in subterms(v) if isinstance(s_, tuple) and s_ and s_[0] == "const" and s_[1] and s_[1].startswith('b"')]
         disp = [s_ for s_ in subterms(v) if isinstance(s_, tuple) and s_ and s_[0] == "call" and is_call(s_, "Argument::new_display")]
